@@ -97,9 +97,21 @@ def gen_input(rng, kind):
 
 class C11(Prop):
     id = "C11"
-    claim = False          # not registered in MANIFEST.json until its theorems are in
-    lean_modules = []
-    theorems = []
+    lean_modules = ["PkgProofs.Props.C11", "PkgProofs.Props.C02", "PkgProofs.Props.C07", "PkgProofs.Props.C14", "PkgProofs.Props.C16",
+                    "PkgProofs.Props.C17", "PkgProofs.Props.C18", "PkgProofs.Props.C19"]
+    theorems = ["C11.canonicalize_version_never_raises", "C11.version_reparse_never_raises", "C11.prereleases_never_raises",
+                "C11.compare_no_escape", "C11.contains_no_escape",
+                "C02.canon_never_raises", "C02.canon_obj_never_raises", "C14.wheel_never_raw", "C14.reject_wrong_extension",
+                "C14.reject_wrong_parts", "C14.reject_bad_name", "C14.reject_bad_version", "C14.reject_bad_build",
+                "C14.sdist_reject_extension", "C14.sdist_reject_no_dash", "C14.sdist_reject_version",
+                "C17.raises_only_from_components", "C17.never_raises_if_components_clean", "C18.raises_iff", "C18.never_raises",
+                "C19.canon_eq_spec", "C19.rejects_iff_not_wf", "C07.undefined_comparison_iff", "C16.interp_is_first_pt_interp"]
+    trusted = ["the models' explicit exception sites are all the sites there are: established by correspondence and by the "
+               "only_documented law on the real code, not by a theorem"]
+    partial = ["the theorems are about exception flow in the models; entry points whose model is total by construction "
+               "(Version, Specifier, canonicalize_name, is_normalized_name, parse_sdist_filename) are covered by the law only",
+               "parse_email/from_email on str input containing surrogate code points (known finding F44); numeric components "
+               "beyond the interpreter's int-from-string limit (known finding F07)"]
     rule = ("every public entry point named in the statement is called on valid, one-to-three-edits-away and arbitrary "
             "Unicode/bytes inputs; an exception class outside the documented set is a concrete violation (no oracle needed); "
             "non-trivial = the call raised its documented exception or returned on a damaged input")
